@@ -1,6 +1,7 @@
 import Hgxv.Proofs.C04Rej
 import Hgxv.Proofs.C04AggSpec
 import Hgxv.Proofs.C04Promote
+import Hgxv.Proofs.C04Dump
 /-! # C04 - MultiplexHypergraph keeps (hyperedge, layer) records; aggregation sums layers
 
 Objects (see `Model/C04.lean`, `Model/C04Spec.lean`): `Store` = the tables of the Python object, `step`/`run` =
@@ -311,3 +312,56 @@ example : records (run (init false) C04_promo_ops) = [([1, 2], 0), ([2], 1)] ∧
     getWeight (run (init false) C04_promo_ops) [1, 2] 0 = some 28 ∧ overlap (run (init false) C04_promo_ops) [2] = 2 := by decide
 example : (aggregated (run (init false) C04_promo_ops)).map (fun a => (a.weighted, a.edges.map (fun e => (e.1, e.2.1)))) =
     some (true, [([1, 2], 28), ([2], 2)]) := by decide
+
+
+/-! ## Strengthening round d: objects that come out of the serialisation routines, and the order of the layer registry -/
+
+/-- **A saved and re-loaded object is the same object, at every point of a history** (seeded C04-d2 lives here).
+`expose_data_structures()` followed by `populate_from_dict` (what `save_hypergraph(binary=True)` / `load_hypergraph` do around
+a pickle of the dict) is accepted by the loader and gives back the store itself - all ten tables, the registry of layers
+included, because every name written is the name read.  Hence a history that goes through the loader after `ops` and then
+continues with `ops'` ends in the state of the uninterrupted history `ops ++ ops'`, and its abstraction is the run of the
+map: every query, `aggregated` and `overlap` included, answers as `C04_queries` / `C04_refines_aggregate` say. -/
+theorem C04_reload (w : Bool) (hm : HMeta) (ops ops' : List Op) (hw : ∀ op ∈ ops ++ ops', op.WF) :
+    loadDump (expose (run (init w hm) ops)) = some (run (init w hm) ops) ∧
+    run (reload (run (init w hm) ops)) ops' = run (init w hm) (ops ++ ops') ∧
+    abs (run (reload (run (init w hm) ops)) ops') = Spec.run (Spec.init w hm) (ops ++ ops') ∧
+    (∀ raw, overlap (run (reload (run (init w hm) ops)) ops') raw = Spec.overlap (Spec.run (Spec.init w hm) (ops ++ ops')) raw) := by
+  have e : run (reload (run (init w hm) ops)) ops' = run (init w hm) (ops ++ ops') := by
+    rw [reload_eq, run_append]
+  refine ⟨loadDump_expose _, e, ?_, ?_⟩
+  · rw [e]; exact C04_refines w hm _ hw
+  · intro raw
+    rw [e]; exact (C04_refines_aggregate w hm _ hw).2 raw
+
+/-- **The overlap does not depend on the order in which the layers are walked** (seeded C04-d3 lives here: the registry is a
+Python `set`, its iteration order is arbitrary and the names need not be comparable with each other - the model never
+compares two layer names by anything but equality). For every arrangement `order` of the registry the sum of
+`get_weight(e, layer)` over `order` is `overlap`, i.e. (in a reachable state, `C04_overlap`) the sum over the records with that node set. -/
+theorem C04_overlap_any_order (s : Store) (h : Inv s) (raw : List Node) (order : List Layer) (hp : order.Perm s.layers) :
+    overlapIn s order raw = overlap s raw ∧
+    overlapIn s order raw =
+      (((records s).filter (fun k => k.1 = canon raw)).map (fun k => (getWeight s k.1 k.2).getD 0)).sum := by
+  have e : overlapIn s order raw = overlap s raw := by
+    rw [overlapIn_perm s raw order s.layers hp, overlapIn_layers]
+  exact ⟨e, e.trans (C04_overlap s h raw)⟩
+
+/-! non-vacuity: the history `C04_ops` is cut after four calls, goes through the loader and continues; walking the registry
+backwards gives the same overlap; and a witness of what the seeded change C04-d2 does - a dictionary whose registry is
+written under another name than the one that is read: all records are there, no layer is, every overlap is 0 while the
+aggregate still carries the sums -/
+example : run (reload (run (init true) (C04_ops.take 4))) (C04_ops.drop 4) = run (init true) C04_ops :=
+  (C04_reload true [] (C04_ops.take 4) (C04_ops.drop 4) (by decide)).2.1
+example : (run (init true) (C04_ops.take 4)).layers = [0, 1, 2] ∧ (reload (run (init true) (C04_ops.take 4))).layers = [0, 1, 2] := by
+  rw [reload_eq]; decide
+example : overlapIn (run (init true) C04_ops) [2, 1, 0] [3, 2] = 19 := by decide
+
+def C04_renamed (s : Store) : Dump :=
+  (expose s).map (fun p => if p.1 = "existing_layers" then ("_existing_layers", p.2) else p)
+
+example : records (populate (C04_renamed (run (init true) C04_ops))) = records (run (init true) C04_ops) ∧
+    (populate (C04_renamed (run (init true) C04_ops))).layers = [] ∧
+    overlap (populate (C04_renamed (run (init true) C04_ops))) [3, 2] = 0 ∧
+    (aggregated (populate (C04_renamed (run (init true) C04_ops)))).map (fun a => a.edges.map (fun e => (e.1, e.2.1))) =
+      some [([2, 3], 19), ([2], 4)] := by
+  decide
